@@ -333,6 +333,31 @@ fn directed(sh: &mut Shard, tier: Tier) {
             case(sh, "ladder-nesting", &format!("{}1{}", "functie() { ".repeat(m), " }()".repeat(m)), big);
             case(sh, "ladder-nesting", &format!("1{}", " + 1".repeat(m)), big);
             case(sh, "ladder-nesting", &format!("stel a = 1; a{}", " = a".repeat(m)), big);
+            // every recursive path of the grammar, closed and left open
+            for (open, mid, close) in [
+                ("als nee { 1 } anders ", "{ 2 }", ""),
+                ("als nee { 1 } anders ", "als ja { 2 }", ""),
+                ("als nee { } anders { ", "1", " }"),
+                ("a(", "1", ")"),
+                ("print(1, ", "1", ")"),
+                ("a[", "1", "]"),
+                ("[1, ", "1", "]"),
+                ("zolang nee { ", "1", " }"),
+                ("zolang ", "nee", " { }"),
+                ("als ", "ja", " { }"),
+                ("{ stel x = ", "1", " }"),
+                ("functie f() { antwoord ", "1", " }"),
+                ("1 + (", "1", ")"),
+                ("a = (", "1", ")"),
+                ("a += ", "1", ""),
+                ("a = b[", "1", "]"),
+                ("-(", "1", ")"),
+                ("!a == ", "1", ""),
+                ("1 - -", "1", ""),
+            ] {
+                case(sh, "ladder-nesting", &format!("{}{}{}", open.repeat(m), mid, close.repeat(m)), big);
+                case(sh, "ladder-nesting", &format!("{}{}", open.repeat(m), mid), big);
+            }
             case(sh, "ladder-nesting", &"(".repeat(m), big);
             case(sh, "ladder-nesting", &"[".repeat(m), big);
             case(sh, "ladder-nesting", &"{".repeat(m), big);
